@@ -203,6 +203,20 @@ def run(check):
         sc = gen.make_scripts(prog.steps, {})
         text_cases.append(({"id": "c20-o%03d-engine" % k, "mode": "engine", "files": prog.files(), "scripts": sc, "runs": [], "extra": {"engine": {"cache": "context", "input_yaml": "{tag: T}"}}},
                            {"id": "c20-o%03d-direct" % k, "files": prog.files(), "scripts": sc, "runs": [{"input": {"tag": "T"}}]}, "loop switched off by the constant %r at depth %d" % (v, depth)))
+    # explicit output schemas with optional properties that have defaults and are not produced: what comes back is what the
+    # workflow produced, through the engine as directly
+    for k, flag in enumerate([None, False, True]):
+        a = gen.plugin_step("a", Expr(In("tag")))
+        props = {"t": {"type": {"type_id": "string"}}, "severity": {"type": {"type_id": "string"}, "required": False, "default": "\"low\""}, "count": {"type": {"type_id": "integer"}, "required": False, "default": "3"},
+                 "given": {"type": {"type_id": "string"}, "required": False, "default": "\"unused\""}}
+        entry = {"schema": {"root": "R", "objects": {"R": {"id": "R", "properties": props}}}}
+        if flag is not None:
+            entry["error"] = flag
+        oid = "error" if k == 1 else "success"
+        prog = Program([a], {oid: {"t": gen.tagref("a"), "given": "explicitly"}}, gen.BASE_INPUT, output_schema={oid: entry})
+        sc = gen.make_scripts([a], {})
+        text_cases.append(({"id": "c20-d%03d-engine" % k, "mode": "engine", "files": prog.files(), "scripts": sc, "runs": [], "extra": {"engine": {"cache": "context", "input_yaml": "{tag: T}"}}},
+                           {"id": "c20-d%03d-direct" % k, "files": prog.files(), "scripts": sc, "runs": [{"input": {"tag": "T"}}]}, "explicit output schema with defaulted optional properties (output %r, error flag %r)" % (oid, flag)))
     stats = {"trees": n, "engine_runs": 0, "direct_runs": 0, "error_flag_true": 0, "error_flag_false": 0, "cli_runs": 0, "rejected": 0}
     with harness.Runner(instrument=False) as rn:
         out = rn.run_cases(items, per_case_timeout=60)
@@ -217,8 +231,8 @@ def run(check):
         if oe["result"].get("prepare_err") or od["result"].get("prepare_err") or (re_.get("out_id"), ref.denum(re_.get("data")), bool(re_.get("err"))) != (rd.get("out_id"), ref.denum(rd.get("data")), bool(rd.get("err"))):
             check.report("api@input-file-differs-from-direct" if text.startswith(("s:", "{s:")) else "api@engine-differs-from-direct:directed", "%r: the engine API returned (%r, %r, %s) but executing the prepared workflow on the same scalars returns (%r, %r, %s)" % (
                 text, re_.get("out_id"), re_.get("data"), (re_.get("err") or oe["result"].get("prepare_err") or "")[:100], rd.get("out_id"), rd.get("data"), (rd.get("err") or "")[:100]), {"case": ce})
-        elif re_.get("out_id") != "success":
-            check.fail_broken("input text case did not run: %r" % (re_,))
+        elif not re_.get("out_id"):
+            check.fail_broken("directed engine-versus-direct case did not run: %r" % (re_,))
         check.nontrivial("input-text|%d" % len(text))
     for case, key, subname, how in clash_cases:
         o = kout.get(case["id"], {})
